@@ -3,7 +3,7 @@ import MythVerif.Proofs.WsQueueTsoTac
 namespace MythVerif.WsqTso
 open MythVerif.Wsq
 
-set_option maxHeartbeats 2000000 in
+set_option maxHeartbeats 4000000 in
 theorem t_tk2 (s s' : St) (p : Pid) (b) : Inv s → s.tpc p = .tk2 b → stepT s p = some s' → Inv s' := by
   intro h heq hs
   have hb := h.tbufE p (by simp [heq, mayBuf])
@@ -27,13 +27,13 @@ theorem t_tk2 (s s' : St) (p : Pid) (b) : Inv s → s.tpc p = .tk2 b → stepT s
       case pof =>
         intro t ht
         have := hpof t ht
-        exact ⟨this.1, pof_tail _ _ s.lt s.lb _ _ x A' (hA ▸ this.2) this.1 (by rw [← hA]; exact hlen) (by omega)⟩
+        exact ⟨this.1, pof_tail _ _ s.lt s.lb _ _ x A' (hA ▸ this.2) this.1 (by rw [← hA]; exact hlen) (Or.inl (by omega))⟩
       case mwin =>
         intro k hk hk2
-        have h1 := hmwin (k + 1) (by simp [hA]; omega) (by omega)
+        have h1 := hmwin (k + 1) (by simp [hA]; omega) (hk2.elim (fun h => Or.inl (by omega)) Or.inr)
         simp [hA] at h1
         rw [← h1]; congr 1; omega
-      all_goals (first | assumption | grind [thiefLocked, mayBuf, notTrans, thiefFlight] | grind [thiefLocked, mayBuf, notTrans, thiefFlight, getLast?_tail_of_length, CarryShape, Pu2Shape, PofShape, Po6Shape, Po8Shape, Po9Shape, TkfShape, Tk6Shape] | skip)
+      tso_rest
     · simp at hs; subst hs
       simp only [ownerLocked, carry, resetting, ownerFlight] at *
       tso_finish
